@@ -73,9 +73,14 @@ fn main() {
                 let mut keys: Vec<u32> = m.keys().iter().filter_map(|s| back(*s)).collect(); keys.sort();
                 let mut vals: Vec<u32> = m.values().iter().filter_map(|s| back(*s)).collect(); vals.sort();
                 let bij = m.is_bijection();
-                let inv = if bij { pairs_of(&m.inverse()) } else { vec![] };
+                // a non-injective map: the default build accepts it (the checks build asserts the precondition); the result
+                // must still be a finite map (SlotMap.tla: IsSection) that equals the map rebuilt from its own pairs
+                let inv_taken = bij || !cfg!(feature = "checks");
+                let invm = if inv_taken { m.inverse() } else { SlotMap::new() };
+                let inv = if inv_taken { pairs_of(&invm) } else { vec![] };
+                let inv_wf = { let re = SlotMap::from_pairs(&invm.iter().collect::<Vec<_>>()); re == invm && h(&re) == h(&invm) && re.len() == invm.len() && invm.keys().len() == invm.len() };
                 let gets: Vec<(u32, Vec<u32>)> = (0..4).map(|_| { let k = rng.gen_range(1..=alpha); (k, m.get(sl(k)).and_then(back).into_iter().collect()) }).collect();
-                json!({"op":"read","len":m.len(),"keys":keys,"values":vals,"bij":bij,"perm":m.is_perm(),"inv":inv,
+                json!({"op":"read","len":m.len(),"keys":keys,"values":vals,"bij":bij,"perm":m.is_perm(),"inv":inv,"inv_taken":inv_taken,"inv_wf":inv_wf,
                        "eq_canon": m == canon, "hash_canon": h(&m) == h(&canon), "cmp_canon_equal": m.cmp(&canon) == std::cmp::Ordering::Equal,
                        "gets": gets})
             } else {
